@@ -90,9 +90,35 @@ class C05(Prop):
                 sched.append(rng.below(nt))
         return sched
 
+    def _hist_case(self, rng):
+        # sequential cases through the HistogramFn entry points: record / record_many (counts at the block
+        # boundaries, zero included) mixed with reads; at most ~330 pushes per case
+        prog, budget = [], 330
+        for _ in range(rng.range(1, 6)):
+            kind = rng.weighted([(5, "M"), (2, "R"), (2, "D"), (2, "C"), (2, "E")])
+            if kind == "M":
+                cnt = rng.weighted([(4, 0), (3, 1), (2, 2), (2, 63), (2, 64), (2, 65), (1, rng.range(3, 62)),
+                                    (1, rng.range(66, 140)), (1, rng.range(200, 320))])
+                if cnt > budget:
+                    cnt = rng.pick([0, 1, 2])
+                budget -= cnt
+                prog.append("M%dx%d" % (rng.below(4), cnt))
+            elif kind == "R":
+                prog.append("R%d" % rng.below(4))
+                budget -= 1
+            else:
+                prog.append(kind)
+        if rng.chance(1, 2):
+            prog.append(rng.pick(["D", "C", "E"]))
+        sched = [rng.below(2) for _ in range(rng.range(0, 6))] if rng.chance(1, 3) else []
+        return dict(progs=[prog], sched=sched, hist=1)
+
     def gen(self, rng, n):
         cases = []
         for _ in range(n):
+            if rng.chance(1, 8):
+                cases.append(self._hist_case(rng))
+                continue
             mix = rng.weighted([(3, "ppc"), (3, "pcs"), (3, "pps"), (2, "ccp"), (2, "e"), (1, "any")])
             def pusher(lo=1, hi=3):
                 return ["P%d" % rng.below(4) for _ in range(rng.range(lo, hi))]
@@ -150,7 +176,8 @@ class C05(Prop):
 
     # ---- plumbing
     def impl_line(self, c):
-        return "%s ; %s" % ("|".join(",".join(p) for p in c["progs"]), " ".join(map(str, c["sched"])))
+        line = "%s ; %s" % ("|".join(",".join(p) for p in c["progs"]), " ".join(map(str, c["sched"])))
+        return ("H " + line) if c.get("hist") else line
 
     @staticmethod
     def _slices(s):
@@ -176,7 +203,10 @@ class C05(Prop):
 
     def coq_case(self, c):
         def call(x):
-            return {"D": "CData", "C": "CClear", "E": "CEmpty"}.get(x) or "CPush %s" % cq_N(int(x[1:]))
+            if x[0] == "M":
+                v, cnt = x[1:].split("x")
+                return "XMany %s %s" % (cq_N(int(v)), cq_N(int(cnt)))
+            return "XCall (%s)" % ({"D": "CData", "C": "CClear", "E": "CEmpty"}.get(x) or "CPush %s" % cq_N(int(x[1:])))
         return "(%s, %s)" % (cq_list([cq_list([call(x) for x in p]) for p in c["progs"]]),
                              cq_list([cq_N(t) for t in c["sched"]]))
 
@@ -199,6 +229,8 @@ class C05(Prop):
             cq_bool(o["done"]), self._cq_slices(o["final"]), cq_N(o["anom"]))
 
     def signature(self, c, o):
+        if c.get("hist"):
+            return ["hist", c["progs"]] if any(x[0] == "M" for x in c["progs"][0]) else None
         tr = o["trace"]
         # a read's first step falls between some push's first step and its publication
         readers = [i for i, (_, s) in enumerate(tr) if s in (530, 540, 520, 504, 506, 541)]
@@ -220,6 +252,18 @@ class C05(Prop):
         return [short, [x for x in tr if x[1] not in (502, 503)][-80:]]
 
     def shrink(self, c):
+        if c.get("hist"):
+            out, p = [], c["progs"][0]
+            for i in range(len(p)):
+                out.append(dict(c, progs=[p[:i] + p[i + 1:]]))
+                if p[i][0] == "M":
+                    v, cnt = p[i][1:].split("x")
+                    for smaller in (0, 1, int(cnt) // 2):
+                        if smaller < int(cnt):
+                            out.append(dict(c, progs=[p[:i] + ["M%sx%d" % (v, smaller)] + p[i + 1:]]))
+            if c["sched"]:
+                out.append(dict(c, sched=[]))
+            return out[:48]
         out = []
         s = c["sched"]
         # the leading burst (sequential prefix) is kept; cut the raced suffix from the end, then single entries
